@@ -360,6 +360,13 @@ def run(chk):
             flat += [int(round(t * 4)) for t in sd.times] + [int(round(s_[0, 0].real)) for s_ in sd.states]
         add(f"let m := mfd_of Z Z Z Z.leb {rows} in fst (fst m) ++ snd (fst m) ++ flat_map (fun d => fst d ++ snd d) (snd m)", flat,
             {"kind": "MeanFieldDynamics.add (whole record)", "times": ts, "systems": nsys}, ("mfdrec", tuple(ts), nsys))
+        if ok2:
+            # the same rows handed to the constructor as three lists: the record is the one mfd_of builds from the rows in list order
+            flat2 = c_t + c_f
+            for sd in mfd2.system_dynamics:
+                flat2 += [int(round(t * 4)) for t in sd.times] + [int(round(s_[0, 0].real)) for s_ in sd.states]
+            add(f"let m := mfd_of Z Z Z Z.leb {rows} in fst (fst m) ++ snd (fst m) ++ flat_map (fun d => fst d ++ snd d) (snd m)", flat2,
+                {"kind": "MeanFieldDynamics(times, states, fields) (whole record)", "times": ts, "systems": nsys}, ("mfdrec-ctor", tuple(ts), nsys))
         chk.count("MeanFieldDynamics.add")
 
     # ---- (c3) the time axes of compute_correlations / compute_correlations_nt: an interval given as a pair of floats, in either
